@@ -8,6 +8,8 @@ pub mod mem;
 pub mod prng;
 pub mod registry;
 pub mod residue;
+#[cfg(not(miri))]
+pub mod spy;
 pub mod world;
 
 /// The aarch64 intrinsic model (used in generated aarch64 shadows); linked here so that
